@@ -15,7 +15,7 @@ WATCHDOG = {"quick": 900, "thorough": 3000}
 
 
 def cases(ctx):
-    for i in range(ctx.pick(1500, 960000)):
+    for i in range(ctx.pick(1500, 400000)):
         yield "history", {"seed": ctx.subseed("h", i), "kind": ["recording", "scikit_stub", "passthrough"][i % 3]}
 
 
